@@ -45,7 +45,7 @@ def clone(n):
 PURE_FUNCS = {'len', 'int', 'str', 'min', 'max', 'abs', 'bool', 'repr', 'isinstance', 'format', 'tuple', 'sorted'}
 PURE_METHODS = {'get_value', 'get_seg_id', 'strip', 'rstrip', 'lstrip', 'upper', 'lower', 'format', 'startswith',
                 'endswith', 'count', 'find', '_int', 'get_path', 'is_empty', 'is_seg_id_valid', 'split', 'join',
-                'get_term', 'keys', 'values', 'items'}
+                'get_term', 'keys', 'values', 'items', 'get_child_count', 'get_count', 'get_max_repeat'}
 # reads that are not propagated but are known not to write (used only to limit what counts as a write)
 READONLY_METHODS = PURE_METHODS | {'get', 'group', 'groups', 'match', 'search', 'fullmatch', 'get_parent',
                                    'get_child_count', 'get_child_node_by_idx', 'ele_len', 'is_composite', 'is_element',
@@ -53,6 +53,9 @@ READONLY_METHODS = PURE_METHODS | {'get', 'group', 'groups', 'match', 'search', 
                                    'is_loop', 'is_segment', 'is_map_root', 'is_first_seg_in_loop', 'get_error_count',
                                    'findtext', 'copy', 'is_match', 'is_valid_code', 'get_name', 'debug', 'info',
                                    'warning', 'error', 'title', 'zfill', 'encode', 'decode', 'isspace'}
+
+# what a getter reads of its receiver (anything else about the receiver may change without affecting its result)
+GETTER_READS = {'get_child_count': ('children',), 'get_seg_id': ('seg_id',), 'is_seg_id_valid': ('seg_id',)}
 
 _NEG = {ast.Eq: ast.NotEq, ast.NotEq: ast.Eq, ast.In: ast.NotIn, ast.NotIn: ast.In, ast.Is: ast.IsNot,
         ast.IsNot: ast.Is, ast.Lt: ast.GtE, ast.GtE: ast.Lt, ast.Gt: ast.LtE, ast.LtE: ast.Gt}
@@ -145,7 +148,12 @@ def input_paths(e):
             return
         if isinstance(n, ast.Call):
             if isinstance(n.func, ast.Attribute):
-                w(n.func.value)
+                rp = C.path_of(n.func.value)
+                if rp and n.func.attr in GETTER_READS:
+                    for fld in GETTER_READS[n.func.attr]:
+                        out.add(rp + '.' + fld)
+                else:
+                    w(n.func.value)
             for a in n.args:
                 w(a)
             for k in n.keywords:
@@ -305,19 +313,82 @@ def _replace_stmt(fn, old, new):
             if isinstance(blk, list):
                 for i, s in enumerate(blk):
                     if s is old:
-                        blk[i] = new
+                        if new is None:
+                            if len(blk) > 1:
+                                del blk[i]
+                            else:
+                                blk[i] = ast.copy_location(ast.Pass(), old)
+                        else:
+                            blk[i] = new
                         return True
     return False
 
 
+def _cand_defs(fn, bad):
+    """[(name, rhs expression, defining statement)] for `name = pure expr` definitions (any number per name)"""
+    out = []
+    for s in ast.walk(fn):
+        if isinstance(s, (ast.FunctionDef, ast.Lambda)) and s is not fn:
+            continue
+        if not isinstance(s, ast.Assign) or len(s.targets) != 1:
+            continue
+        t = s.targets[0]
+        if isinstance(t, ast.Name):
+            if t.id not in bad and is_pure(s.value) and t.id not in input_paths(s.value):
+                out.append((t.id, s.value, s))
+        elif isinstance(t, ast.Tuple) and all(isinstance(x, ast.Name) for x in t.elts):
+            v = s.value
+            names = {x.id for x in t.elts}
+            if names & bad:
+                continue
+            if isinstance(v, ast.Tuple) and len(v.elts) == len(t.elts) and all(is_pure(x) for x in v.elts):
+                if any(names & input_paths(x) for x in v.elts):
+                    continue
+                for x, e in zip(t.elts, v.elts):
+                    out.append((x.id, e, s))
+            elif (C.path_of(v) or (isinstance(v, ast.Subscript) and is_pure(v))) and not (names & input_paths(v)):
+                # (a, b) = self.loops[-1]   ->   a := self.loops[-1][0]
+                for i, x in enumerate(t.elts):
+                    e = ast.Subscript(value=clone(v), slice=ast.Constant(value=i), ctx=ast.Load())
+                    ast.copy_location(e, v)
+                    ast.fix_missing_locations(e)
+                    out.append((x.id, e, s))
+    return out
+
+
+def _nested_names(fn):
+    """names that occur in nested scopes or are declared global/nonlocal: never propagated"""
+    bad = set()
+
+    def walk(n):
+        for c in ast.iter_child_nodes(n):
+            if isinstance(c, (ast.FunctionDef, ast.AsyncFunctionDef, ast.Lambda, ast.ClassDef)):
+                for x in ast.walk(c):
+                    if isinstance(x, ast.Name):
+                        bad.add(x.id)
+                continue
+            if isinstance(c, (ast.Global, ast.Nonlocal)):
+                bad.update(c.names)
+            if isinstance(c, (ast.ListComp, ast.SetComp, ast.DictComp, ast.GeneratorExp)):
+                for g in c.generators:
+                    for x in ast.walk(g.target):
+                        if isinstance(x, ast.Name):
+                            bad.add(x.id)
+            walk(c)
+    walk(fn)
+    return bad
+
+
 def copy_propagate(fn, modsum, stats):
+    """A use of a local is replaced by the pure expression it was assigned when that assignment is the ONLY definition
+    reaching the use and nothing the expression reads can have been written in between."""
     for _round in range(4):
-        cnt, bad = _store_counts(fn)
-        cands = _candidates(fn, cnt, bad)
+        bad = _nested_names(fn)
+        cands = _cand_defs(fn, bad)
         if not cands:
             return
         g = C.CFG(fn)
-        dom = g.dominators()
+        RD, DEFS = C.reaching_defs(g)
         node_of = {}
         for nd in g.nodes:
             for x in g.walk_exprs(nd):
@@ -325,56 +396,85 @@ def copy_propagate(fn, modsum, stats):
             if nd.kind == 'stmt' and isinstance(nd.ast, ast.stmt):
                 node_of.setdefault(id(nd.ast), nd)
         writes = {nd.id: _writes(nd, modsum) for nd in g.nodes}
-        allowed = {}
+        by_def = {}
         for name, rhs, stmt in cands:
             d = node_of.get(id(stmt))
-            if d is None:
+            if d is not None:
+                by_def[(d.id, name)] = (rhs, d)
+        dirty_cache = {}
+
+        def dirty_of(d, rhs):
+            k = (d.id, id(rhs))
+            if k not in dirty_cache:
+                inputs = input_paths(rhs)
+                killers = [nd for nd in g.nodes if nd is not d and any(_hits(w, p) for w in writes[nd.id] for p in inputs)]
+                dirty = set()
+                st = [s_ for k_ in killers for s_, _l in k_.succ]
+                while st:
+                    n = st.pop()
+                    if n.id in dirty or n is d:
+                        continue
+                    dirty.add(n.id)
+                    for s_, _l in n.succ:
+                        st.append(s_)
+                dirty_cache[k] = dirty
+            return dirty_cache[k]
+        allowed = {}
+        for x in ast.walk(fn):
+            if not (isinstance(x, ast.Name) and isinstance(x.ctx, ast.Load)) or x.id in bad:
                 continue
-            inputs = input_paths(rhs)
-            killers = [nd for nd in g.nodes if nd is not d and any(_hits(w, p) for w in writes[nd.id] for p in inputs)]
-            # the defining statement itself may write an input (x = self.n; self.n += 1 is a different statement; a
-            # def such as  a = self.loops.pop()  is not pure and never a candidate)
-            dirty = set()
-            st = []
-            for k in killers:
-                for s, _l in k.succ:
-                    st.append(s)
-            while st:
-                n = st.pop()
-                if n.id in dirty or n is d:
-                    continue
-                dirty.add(n.id)
-                for s, _l in n.succ:
-                    st.append(s)
-            for x in ast.walk(fn):
-                if isinstance(x, ast.Name) and x.id == name and isinstance(x.ctx, ast.Load):
-                    u = node_of.get(id(x))
-                    if u is None or u is d:
-                        continue
-                    if d.id not in dom.get(u.id, ()):
-                        continue
-                    if u.id in dirty:
-                        continue
-                    allowed[id(x)] = rhs
+            u = node_of.get(id(x))
+            if u is None:
+                continue
+            rd = (RD.get(u.id) or {}).get(x.id)
+            if not rd or len(rd) != 1:
+                continue
+            did = next(iter(rd))
+            ent = by_def.get((did, x.id))
+            if ent is None:
+                continue
+            rhs, d = ent
+            if u is d:
+                continue
+            if u.id in dirty_of(d, rhs):
+                continue
+            allowed[id(x)] = rhs
         if not allowed:
             return
         sub = _Subst(allowed)
         sub.visit(fn)
         stats['copyprop_uses'] = stats.get('copyprop_uses', 0) + sub.n
-        # a definition whose every use was replaced is a dead store of a pure value: drop it
-        live = {x.id for x in ast.walk(fn) if isinstance(x, ast.Name) and isinstance(x.ctx, ast.Load)}
-        dead = {}
+        ast.fix_missing_locations(fn)
+        # a definition that reaches no use any more is a dead store of a pure value: drop it
+        g2 = C.CFG(fn)
+        RD2, DEFS2 = C.reaching_defs(g2)
+        used = set()
+        for nd in g2.nodes:
+            names = set()
+            for x in g2.walk_exprs(nd):
+                if isinstance(x, ast.Name) and isinstance(x.ctx, ast.Load):
+                    names.add(x.id)
+            if nd.kind == 'stmt' and isinstance(nd.ast, ast.AugAssign) and isinstance(nd.ast.target, ast.Name):
+                names.add(nd.ast.target.id)
+            for nm in names:
+                for d_ in (RD2.get(nd.id) or {}).get(nm, ()):
+                    used.add((d_, nm))
+        stmt_node = {}
+        for nd in g2.nodes:
+            if nd.kind == 'stmt' and isinstance(nd.ast, ast.stmt):
+                stmt_node[id(nd.ast)] = nd
+        done = set()
         for name, _rhs, stmt in cands:
-            dead.setdefault(id(stmt), [stmt, True])
-            if name in live:
-                dead[id(stmt)][1] = False
-        for stmt, is_dead in dead.values():
-            if not is_dead:
+            if id(stmt) in done:
+                continue
+            nd = stmt_node.get(id(stmt))
+            if nd is None:
                 continue
             tnames = [x.id for x in ast.walk(stmt.targets[0]) if isinstance(x, ast.Name)]
-            if any(t in live for t in tnames):
+            if any((nd.id, t) in used for t in tnames) or any(t in bad for t in tnames):
                 continue
-            if _replace_stmt(fn, stmt, ast.copy_location(ast.Pass(), stmt)):
+            done.add(id(stmt))
+            if _replace_stmt(fn, stmt, None):
                 stats['copyprop_dead_defs'] = stats.get('copyprop_dead_defs', 0) + 1
         ast.fix_missing_locations(fn)
 
@@ -518,6 +618,7 @@ class Inliner(object):
         self.tree = tree
         self.stats = stats
         self.k = 0
+        self.expanded = {}
         # name -> (FunctionDef, is_method)
         self.helpers = {}
         dup = set()
@@ -601,6 +702,7 @@ class Inliner(object):
                         ast.copy_location(x, c)
                 nonlocal n
                 n += 1
+                outer.expanded[helper.name] = outer.expanded.get(helper.name, 0) + 1
                 return new
         T().visit(fn)
         if n:
@@ -647,8 +749,10 @@ class Inliner(object):
                 helper, is_method = r
                 if self._expr_bodied(helper) is not None:
                     continue
-                # the call must be evaluated unconditionally by the statement
-                if not self._unconditional(root, c):
+                # the call must be evaluated unconditionally by the statement - unless the helper is a pure function
+                # of its arguments (only tests, local assignments and returns of pure expressions), which may be
+                # evaluated early without any observable difference
+                if not self._unconditional(root, c) and not (_pure_helper(helper) and self._liftable(root, c)):
                     continue
                 b = _bind(helper, c, is_method)
                 if b is None:
@@ -678,6 +782,7 @@ class Inliner(object):
                     pre.append(ast.copy_location(asg, s))
                 rn = _Rename(ren)
                 body = [rn.visit(x) for x in body]
+                self.expanded[helper.name] = self.expanded.get(helper.name, 0) + 1
                 if whole:
                     out = pre + body
                     return out or [ast.copy_location(ast.Pass(), s)]
@@ -685,6 +790,19 @@ class Inliner(object):
                 rp.visit(s)
                 return pre + body + [s]
         return None
+
+    @staticmethod
+    def _liftable(root, call):
+        """not inside a lambda or comprehension (their variables are not in scope at the statement)"""
+        def find(n, inside):
+            if n is call:
+                return not inside
+            for ch in ast.iter_child_nodes(n):
+                r = find(ch, inside or isinstance(n, (ast.Lambda, ast.ListComp, ast.SetComp, ast.DictComp, ast.GeneratorExp)))
+                if r is not None:
+                    return r
+            return None
+        return bool(find(root, False))
 
     @staticmethod
     def _unconditional(root, call):
@@ -713,6 +831,29 @@ class Inliner(object):
         return True
 
 
+def _pure_helper(helper):
+    """only if/return/local assignment with pure expressions: no effect, cannot raise on the paths that matter"""
+    params = {a.arg for a in helper.args.args}
+
+    def ok(stmts):
+        for s_ in stmts:
+            if isinstance(s_, ast.Return):
+                if s_.value is not None and not is_pure(s_.value):
+                    return False
+            elif isinstance(s_, ast.If):
+                if not is_pure(s_.test) or not ok(s_.body) or not ok(s_.orelse):
+                    return False
+            elif isinstance(s_, ast.Assign):
+                if not all(isinstance(t, ast.Name) for t in s_.targets) or not is_pure(s_.value):
+                    return False
+            elif isinstance(s_, (ast.Pass,)):
+                pass
+            else:
+                return False
+        return True
+    return ok(_doc_stripped(helper.body))
+
+
 def _definitely_assigns(stmts, name):
     for s in stmts:
         if isinstance(s, ast.Assign) and any(isinstance(t, ast.Name) and t.id == name for t in s.targets):
@@ -720,6 +861,156 @@ def _definitely_assigns(stmts, name):
         if isinstance(s, ast.If) and s.orelse and _definitely_assigns(s.body, name) and _definitely_assigns(s.orelse, name):
             return True
     return False
+
+
+# ---------------------------------------------------------------------------
+# N4 dispatch through a constant table
+# ---------------------------------------------------------------------------
+
+def _const_dict(d):
+    return isinstance(d, ast.Dict) and d.keys and all(isinstance(k, ast.Constant) and isinstance(k.value, (str, int)) for k in d.keys) \
+        and all(is_pure(v) for v in d.values)
+
+
+def _table_defs(tree, cls, fn):
+    """{reference text: Dict} for constant tables visible in fn: module globals, class attributes (self.X / Cls.X),
+    single-assignment locals - each only if nothing in the module stores into it or calls a method on it other than
+    get/keys/values/items"""
+    tabs = {}
+
+    def mutated(name_pred, scope):
+        for n in ast.walk(scope):
+            if isinstance(n, (ast.Subscript, ast.Attribute)) and isinstance(n.ctx, (ast.Store, ast.Del)) and name_pred(n.value):
+                return True
+            if isinstance(n, ast.Call) and isinstance(n.func, ast.Attribute) and name_pred(n.func.value) \
+                    and n.func.attr not in ('get', 'keys', 'values', 'items'):
+                return True
+            if isinstance(n, ast.AugAssign) and name_pred(n.target):
+                return True
+        return False
+    for st in tree.body:
+        if isinstance(st, ast.Assign) and len(st.targets) == 1 and isinstance(st.targets[0], ast.Name) and _const_dict(st.value):
+            nm = st.targets[0].id
+            n_assign = sum(1 for x in ast.walk(tree) if isinstance(x, ast.Name) and x.id == nm and isinstance(x.ctx, ast.Store))
+            if n_assign == 1 and not mutated(lambda e: isinstance(e, ast.Name) and e.id == nm, tree):
+                tabs[nm] = st.value
+    if cls is not None:
+        for st in cls.body:
+            if isinstance(st, ast.Assign) and len(st.targets) == 1 and isinstance(st.targets[0], ast.Name) and _const_dict(st.value):
+                nm = st.targets[0].id
+                pred = lambda e, nm=nm: isinstance(e, ast.Attribute) and e.attr == nm
+                stored = any(isinstance(x, ast.Attribute) and x.attr == nm and isinstance(x.ctx, (ast.Store, ast.Del)) for x in ast.walk(tree))
+                if not stored and not mutated(pred, tree):
+                    tabs['self.' + nm] = st.value
+                    tabs[cls.name + '.' + nm] = st.value
+    cnt = {}
+    for x in ast.walk(fn):
+        if isinstance(x, ast.Name) and isinstance(x.ctx, ast.Store):
+            cnt[x.id] = cnt.get(x.id, 0) + 1
+    for st in ast.walk(fn):
+        if isinstance(st, ast.Assign) and len(st.targets) == 1 and isinstance(st.targets[0], ast.Name) and _const_dict(st.value):
+            nm = st.targets[0].id
+            if cnt.get(nm) == 1 and not mutated(lambda e, nm=nm: isinstance(e, ast.Name) and e.id == nm, fn):
+                tabs[nm] = st.value
+    return tabs
+
+
+def _unparse(e):
+    try:
+        return ast.unparse(e)
+    except Exception:
+        return None
+
+
+def unguard_continue(fn, stats):
+    """N5: in a loop body,  if c: continue ; REST   becomes   if not c: REST"""
+    changed = True
+    while changed:
+        changed = False
+        for owner in ast.walk(fn):
+            if not isinstance(owner, (ast.For, ast.While)):
+                continue
+            blk = owner.body
+            for i, s in enumerate(blk):
+                if isinstance(s, ast.If) and not s.orelse and len(s.body) == 1 and isinstance(s.body[0], ast.Continue) and blk[i + 1:]:
+                    neg = ast.UnaryOp(op=ast.Not(), operand=s.test)
+                    ast.copy_location(neg, s.test)
+                    new = ast.If(test=neg, body=blk[i + 1:], orelse=[])
+                    ast.copy_location(new, s)
+                    blk[i:] = [new]
+                    stats['guard_continue'] = stats.get('guard_continue', 0) + 1
+                    changed = True
+                    break
+            if changed:
+                break
+    ast.fix_missing_locations(fn)
+
+
+def expand_tables(tree, cls, fn, stats):
+    tabs = _table_defs(tree, cls, fn)
+    if not tabs:
+        return
+    changed = True
+    rounds = 0
+    while changed and rounds < 20:
+        changed = False
+        rounds += 1
+        for owner in ast.walk(fn):
+            for field in ('body', 'orelse', 'finalbody'):
+                blk = getattr(owner, field, None)
+                if not isinstance(blk, list) or not blk or not isinstance(blk[0], ast.stmt):
+                    continue
+                for i, s in enumerate(blk):
+                    if not isinstance(s, ast.If) or not isinstance(s.test, ast.Compare) or len(s.test.ops) != 1:
+                        continue
+                    t = s.test
+                    ref = _unparse(t.comparators[0])
+                    if ref not in tabs or not is_pure(t.left):
+                        continue
+                    d = tabs[ref]
+                    if isinstance(t.ops[0], ast.NotIn) and not s.orelse and len(s.body) == 1 \
+                            and isinstance(s.body[0], (ast.Continue, ast.Return)) and field == 'body' \
+                            and ((isinstance(s.body[0], ast.Continue) and isinstance(owner, (ast.For, ast.While)))
+                                 or (isinstance(s.body[0], ast.Return) and s.body[0].value is None and owner is fn)):
+                        # guard form:  if x not in T: continue ; REST   ==   if x in T: REST
+                        rest = blk[i + 1:]
+                        if not rest:
+                            continue
+                        new = ast.If(test=ast.Compare(left=t.left, ops=[ast.In()], comparators=t.comparators), body=rest, orelse=[])
+                        ast.copy_location(new, s)
+                        blk[i:] = [new]
+                        changed = True
+                        break
+                    if not isinstance(t.ops[0], ast.In):
+                        continue
+                    key_txt = _unparse(t.left)
+                    # the key must not be rebound inside the body
+                    if any(isinstance(x, ast.Name) and isinstance(x.ctx, ast.Store) and x.id == key_txt for b in s.body for x in ast.walk(b)):
+                        continue
+                    chain = None
+                    for k, v in reversed(list(zip(d.keys, d.values))):
+                        body = clone(s.body)
+
+                        class R(ast.NodeTransformer):
+                            def visit_Subscript(self, n, v=v):
+                                self.generic_visit(n)
+                                if isinstance(n.ctx, ast.Load) and _unparse(n.value) == ref and _unparse(n.slice) == key_txt:
+                                    return ast.copy_location(clone(v), n)
+                                return n
+                        body = [R().visit(b) for b in body]
+                        test = ast.Compare(left=clone(t.left), ops=[ast.Eq()], comparators=[ast.Constant(value=k.value)])
+                        node = ast.If(test=test, body=body, orelse=[chain] if chain is not None else clone(s.orelse))
+                        ast.copy_location(node, s)
+                        chain = node
+                    blk[i] = chain
+                    stats['table_dispatch_expanded'] = stats.get('table_dispatch_expanded', 0) + 1
+                    changed = True
+                    break
+                if changed:
+                    break
+            if changed:
+                break
+    ast.fix_missing_locations(fn)
 
 
 # ---------------------------------------------------------------------------
@@ -765,6 +1056,26 @@ def normalize_module(modname, tree, stats):
             if inl.helpers:
                 for _q, f, _m in funcs:
                     inl.run(f)
+                # a private helper that is no longer referenced anywhere in the module was expanded at every call
+                # site: its body has been analysed in context, the stand-alone definition is dropped
+                for nm, (hf, _ism) in list(inl.helpers.items()):
+                    if not nm.startswith('_') or nm.startswith('__') or not inl.expanded.get(nm):
+                        continue
+                    refs = 0
+                    for x in ast.walk(tree):
+                        if x is hf:
+                            continue
+                        if isinstance(x, ast.Attribute) and x.attr == nm:
+                            refs += 1
+                        elif isinstance(x, ast.Name) and x.id == nm:
+                            refs += 1
+                    inside = sum(1 for x in ast.walk(hf) if (isinstance(x, ast.Attribute) and x.attr == nm) or (isinstance(x, ast.Name) and x.id == nm))
+                    if refs - inside == 0:
+                        for owner in [tree] + [c for c in tree.body if isinstance(c, ast.ClassDef)]:
+                            if hf in owner.body:
+                                owner.body.remove(hf)
+                                stats.setdefault('helpers_dropped', []).append('%s:%s' % (modname, nm))
+                funcs = module_functions(tree)
     # class mod-summaries for copy propagation
     by_cls = {}
     classes = {n.name: n for n in tree.body if isinstance(n, ast.ClassDef)}
@@ -786,6 +1097,9 @@ def normalize_module(modname, tree, stats):
         by_cls[cname] = C.mod_summaries(chain)
     for q, f, _m in funcs:
         ms = by_cls.get(q.split('.')[0]) if '.' in q else None
+        cls = classes.get(q.split('.')[0]) if '.' in q else None
+        expand_tables(tree, cls, f, stats)
+        unguard_continue(f, stats)
         try:
             copy_propagate(f, ms, stats)
         except RecursionError:
